@@ -105,9 +105,9 @@ func lockOp(c ssa.CallInstruction) (fld *types.Var, op string) {
 }
 
 type lockFacts struct {
-	in  map[*ssa.BasicBlock]LockSet
-	at  map[ssa.Instruction]LockSet // lockset *before* the instruction
-	fn  *ssa.Function
+	in map[*ssa.BasicBlock]LockSet
+	at map[ssa.Instruction]LockSet // lockset *before* the instruction
+	fn *ssa.Function
 }
 
 // localLocks computes the must-held lockset before each instruction of fn,
